@@ -573,3 +573,19 @@ func (p *Program) calleesAt(fn *ssa.Function, site ssa.CallInstruction) []*ssa.F
 }
 
 var chaOnly *callgraph.Graph
+
+// reflectiveWriter: may a call of fn reach one of the decoders that write struct fields through
+// reflection (json/gob/xml/yaml/toml Unmarshal* / Decode*)? Such a callee can write a field of any
+// package without calling code of that package.
+func (p *Program) reflectiveWriter(fn *ssa.Function) bool {
+	if fn == nil {
+		return true
+	}
+	pkgReach.mu.Lock()
+	defer pkgReach.mu.Unlock()
+	fw := &fieldWr
+	if !fw.built {
+		p.buildFieldWriters()
+	}
+	return fw.reflectW[fn]
+}
